@@ -521,4 +521,11 @@ def QUIESCE(name, profs):
 
 
 if __name__ == "__main__":
-    main()
+    try:
+        main()
+    except SystemExit:
+        raise
+    except BaseException as e:      # a crash of the check itself is never a verdict
+        traceback.print_exc()
+        print("ERROR: check could not run: %s: %s" % (type(e).__name__, e))
+        sys.exit(2)
